@@ -869,9 +869,7 @@ impl rustc_driver::Callbacks for Cb {
                         ("span", cx.span(tcx.def_span(def_id))),
                     ]));
                 }
-                DefKind::Fn | DefKind::AssocFn | DefKind::Closure => {
-                    fns.push(function_json(&cx, did))
-                }
+                DefKind::Fn | DefKind::AssocFn => fns.push(function_json(&cx, did)),
                 DefKind::Impl { .. } => {
                     let self_ty = tcx.type_of(def_id).instantiate_identity().skip_norm_wip();
                     let mut o = vec![
@@ -902,6 +900,12 @@ impl rustc_driver::Callbacks for Cb {
                     ]));
                 }
                 _ => {}
+            }
+        }
+        // closures and coroutine bodies are body owners but not items
+        for did in tcx.hir_body_owners() {
+            if tcx.def_kind(did.to_def_id()) == DefKind::Closure {
+                fns.push(function_json(&cx, did));
             }
         }
         let root = J::Obj(vec![
